@@ -75,6 +75,7 @@ class FnBlock:
         self.extern_body = False
         self.nolabel = False
         self.novac = False
+        self.trait_impl = False
 
 
 def preprocess(path, flavour, seen=None):
@@ -97,10 +98,14 @@ def preprocess(path, flavour, seen=None):
         if not all(stack):
             continue
         if s.startswith("//@include "):
-            inc = os.path.join(os.path.dirname(os.path.abspath(path)), s[11:].strip())
-            if not os.path.exists(inc):
-                inc = os.path.join(os.path.dirname(os.path.dirname(os.path.abspath(path))), "contracts", s[11:].strip())
-            out.extend(preprocess(inc, flavour))
+            parts = s[11:].split()
+            inc = os.path.join(os.path.dirname(os.path.abspath(path)), parts[0])
+            subst = dict(p.split("=", 1) for p in parts[1:])
+            sub = preprocess(inc, flavour)
+            for l2, o2 in sub:
+                for k, v in subst.items():
+                    l2 = l2.replace("{" + k + "}", v)
+                out.append((l2, o2))
             continue
         out.append((line, "%s:%d" % (os.path.relpath(path, "/verif"), ln)))
     if stack:
@@ -148,6 +153,9 @@ def parse_template(lines, flavour):
             cur.nolabel = True
         elif s == "//@novac":
             cur.novac = True
+        elif s == "//@trait-impl":
+            cur.trait_impl = True
+            cur.novac = True
         elif s.startswith("//@rewrite") or s.startswith("//@sigrewrite"):
             m = re.match(r"//@(sig)?rewrite(\??)\s+`(.*?)`\s*=>\s*`(.*)`\s*$", s)
             if not m:
@@ -163,7 +171,7 @@ def parse_template(lines, flavour):
             if not m:
                 raise ExtractError("bad splice at %s" % origin)
             sink = []
-            cur.splices.append((m.group(1), m.group(2), sink))
+            cur.splices.append((m.group(1), m.group(2).split("` | `"), sink))
         elif s.startswith("//@loop-end "):
             sink = []
             cur.splices.append(("loop-end", int(s.split()[1]), sink))
@@ -542,12 +550,16 @@ def rewrite_sig(sig, blk, heap_param):
     if am:
         ret = rest[am.end():].strip()
     head = sig[:po]
-    vis = "" if re.match(r"\s*pub\b", head) else "pub "
+    vis = "" if (re.match(r"\s*pub\b", head) or blk.trait_impl) else "pub "
     out = vis + norm_ws(head) + "(" + norm_ws(params) + ")"
     if ret:
         out += " -> (%s: %s)" % (blk.ret, norm_ws(ret))
     if where:
-        out += "\n    " + norm_ws(where)
+        # R2: the Display bound is dropped
+        w = norm_ws(where)
+        w = re.sub(r"\+\s*Display\b", "", w)
+        w = re.sub(r"\bDisplay\s*\+\s*", "", w)
+        out += "\n    " + norm_ws(w)
     return out
 
 
@@ -565,11 +577,18 @@ def generate(template_path, flavour, repo="/repo", vacuity=False, rules=None):
                 mm = re.match(r"\s*//@heap-method\s+(\w+)\s+(ref|mut)", ln)
                 if mm:
                     heap_methods[mm.group(1)] = mm.group(2)
+    global_rw = []
+    for k, b in items:
+        if k == "text":
+            for ln in b:
+                mm = re.match(r"\s*//@global-rewrite\s+(\S+)\s+`(.*?)`\s*=>\s*`(.*)`\s*$", ln)
+                if mm:
+                    global_rw.append((mm.group(1), mm.group(2), mm.group(3)))
     out = []
     for kind, b in items:
         if kind == "text":
             for ln in b:
-                if ln.strip().startswith("//@heap-method"):
+                if ln.strip().startswith("//@heap-method") or ln.strip().startswith("//@global-rewrite"):
                     continue
                 out.append(ln)
             continue
@@ -600,6 +619,18 @@ def generate(template_path, flavour, repo="/repo", vacuity=False, rules=None):
                 body = rx.sub(lambda _m: to, body)
             if n:
                 stats["Rx-specific"] = stats.get("Rx-specific", 0) + 1
+        for rname, frm, to in global_rw:
+            rx = re.compile(pat_to_regex(frm))
+            n = len(rx.findall(sig)) + len(rx.findall(body))
+            if n:
+                sig = rx.sub(lambda _m: to, sig)
+                body = rx.sub(lambda _m: to, body)
+                stats[rname] = stats.get(rname, 0) + n
+        # R14: `mut self` receiver (unsupported by Verus) -> `self` + `let mut slf = self;`
+        if re.search(r"\(\s*mut\s+self\b", mask(sig)):
+            sig = re.sub(r"\(\s*mut\s+self\b", "(self", sig, count=1)
+            body = "\n        let mut slf = self;" + re.sub(r"(?<![\w.])self\b", "slf", body)
+            stats["R14"] = stats.get("R14", 0) + 1
         body = apply_R5(body, stats)
         body = apply_R7(body, stats)
         guards = []
@@ -643,10 +674,11 @@ def generate(template_path, flavour, repo="/repo", vacuity=False, rules=None):
                     raise ExtractError("%s: loop-end %d: no such loop" % (b.id, pat))
                 edits.append((t, t, txt, 0))
             else:
-                rx = re.compile(pat_to_regex(pat))
-                ms = list(rx.finditer(body))
+                ms = []
+                for alt in pat:
+                    ms.extend(re.compile(pat_to_regex(alt)).finditer(body))
                 if len(ms) != 1:
-                    raise ExtractError("%s: splice anchor `%s` matched %d times" % (b.id, pat, len(ms)))
+                    raise ExtractError("%s: splice anchor `%s` matched %d times" % (b.id, "` | `".join(pat), len(ms)))
                 if where == "before":
                     edits.append((ms[0].start(), ms[0].start(), txt, 0))
                 else:
